@@ -105,32 +105,44 @@ from pyvc.vals import TRef as _TRef              # noqa: E402
 _REFINE_TO = ('Variable', 'Beta', 'Expression')
 
 
+def _class_fact(ex, t, cname):
+    ci = ex.repo.find_class(cname)
+    ids = [ex.class_id(c.name) for c in ex.repo.subclasses(ci.name)]
+    return ci, _z3.And(_Val.is_ref(t), _z3.Or(*[ex.cls_of(_Val.rv(t)) == i for i in ids]))
+
+
 def _refined(ex, st, v):
     if v.kind != 'any' or v.t is None or st.spec:
         return v
     from pyvc.verify import heap_closure
     t = v.t
-    cache = st.ghost.setdefault('c17d-refine', {})
-    key = (t.get_id(), len(st.pc), len(st.bound), len(st.guards))
+    # the result depends on the whole path condition: cached per (term, exact path condition, binders, guards) on the executor
+    cache = ex.__dict__.setdefault('_c17d_refine', {})
+    key = (t.get_id(), hash(tuple(h.get_id() for h in st.pc)), tuple(g.get_id() for _, g in st.bound), tuple(g.get_id() for g in st.guards))
     if key in cache:
         return cache[key]
-    out = v
     # under a binder the bound variable is a free constant of the check, constrained by its range (and the active guards)
     base = list(st.pc) + heap_closure(st) + _VV.ATOMS.axioms() + [g for _, g in st.bound] + list(st.guards)
-    for cname in _REFINE_TO:
-        ci = ex.repo.find_class(cname)
-        if ci is None:
-            continue
-        ids = [ex.class_id(c.name) for c in ex.repo.subclasses(ci.name)]
-        want = _z3.And(_Val.is_ref(t), _z3.Or(*[ex.cls_of(_Val.rv(t)) == i for i in ids]))
+
+    def entailed(fact, tmo):
         s = _z3.Solver()
-        s.set('timeout', 3000)
+        s.set('timeout', tmo)
         s.add(*base)
-        s.add(_z3.Not(want))
-        if str(s.check()) == 'unsat':
-            out = _V(t, _TRef(ex.repo.class_key(ci)))
-            ex.ctx.note(f'ENGINE c17d: untyped operand re-typed as {cname} (entailed by the path condition)')
-            break
+        s.add(_z3.Not(fact))
+        return str(s.check()) == 'unsat'
+    out = v
+    ci, fact = _class_fact(ex, t, 'Expression')
+    if entailed(fact, 3000):
+        out = _V(t, _TRef(ex.repo.class_key(ci)))
+        cname = 'Expression'
+        for special in _REFINE_TO:
+            if special == 'Expression':
+                continue
+            ci2, fact2 = _class_fact(ex, t, special)
+            if entailed(fact2, 1000):
+                out, cname = _V(t, _TRef(ex.repo.class_key(ci2))), special
+                break
+        ex.ctx.note(f'ENGINE c17d: untyped operand re-typed as {cname} (entailed by the path condition)')
     cache[key] = out
     return out
 
@@ -175,9 +187,13 @@ _lib.BUILTINS['enumerate'] = _b_enumerate
 # ENGINE  `if isinstance(variable, Variable): the_variable = variable / elif isinstance(variable, str): the_variable =
 #         Variable(f'{variable}')`: a join makes every heap field an ite over the two paths.  A path that built a Variable node
 #         (outside a binder) carries a ghost mark: no merge with the other path (more paths, never fewer facts).
+_SPLIT_ON_VARIABLE = {'models.piecewise.piecewise_formula', 'models.piecewise.piecewise_as_variable'}
+
+
 @_lib.hook('construct_special')
 def _mark_built_variable(ex, st, ci, args, kwargs, node):
-    if ex.ctx.prop == PROP and ci.name == 'Variable' and not st.spec and not st.bound:
+    if (ex.ctx.prop == PROP and ci.name == 'Variable' and not st.spec and not st.bound
+            and getattr(ex.ctx, 'fn_label', '') in _SPLIT_ON_VARIABLE):
         st.ghost[('c17d-built', 'Variable')] = True
     return None
 
